@@ -712,6 +712,21 @@ def apply(func, args, kwargs=None):
               "$operator.eq": "cmp_eq", "$operator.ne": "cmp_ne"}.get(x.key())
         if op is not None and isinstance(args[1], Rat) and isinstance(args[2], Rat):
             return apply(op, [args[1], args[2]])
+    if func.startswith("elem") and (func == "elem" or func[4:5] == "#") and len(args) == 1 and x is not None and not extra:
+        # the element of [body(e) for e in S] at the current position is body(element of S at that position)
+        mp = x.as_atom("map")
+        if mp is not None and len(mp.args) == 2 and isinstance(mp.args[0], Rat) and isinstance(mp.args[1], Rat):
+            sk = mp.args[1].key()
+            repl = apply(func, [mp.args[1]])
+
+            def sub_(a2):
+                if a2.func == "elem" and len(a2.args) == 1 and isinstance(a2.args[0], Rat) and a2.args[0].key() == sk:
+                    return repl
+                return None
+            try:
+                return map_atoms(mp.args[0], sub_)
+            except Undefined:
+                pass
     if func == "getitem" and len(args) == 2 and x is not None and not extra:
         # (A if c else B)[k] with A, B python tuples / lists of known length and k a constant: the element is selected per branch
         xa0 = x.as_atom("ifexp")
